@@ -473,6 +473,10 @@ Inductive case :=
 (* creation times stamped into tickets issued by real handshakes:
    (the handshake resumed, createdAt of the presented ticket if it opened, server time, createdAt of the new ticket) *)
 | CIssue (tls13 : bool) (rows : list (bool * option N * Z * N))
+(* TLS 1.3 checkForResumption through the hook; binders: (not corrupted, resumption secret it was computed from);
+   out: None = alert, Some None = no PSK, Some (Some i) = PSK identity i selected *)
+| CCheck13 (keys : list tkey) (s : srv) (suite_hash : N) (mode_dhe : bool) (ids : list bytes)
+           (binders : list (bool * bytes)) (ks : kstable) (certs : certtable) (out : option (option N))
 (* key management history: initial legacy key, random stream, operations, observed key lists *)
 | CKeys (user_key : option bytes) (rand : bytes) (ops : list kop) (out : list (list tkey)).
 
@@ -512,6 +516,16 @@ Definition check_case (c : case) : bool :=
                    | UsePSK _ _ => resumed
                    | _ => negb resumed
                    end) rows
+  | CCheck13 keys s h mode ids binders ks certs out =>
+      let binder_ok := fun i st => match nth_error binders i with
+                                   | Some (good, secret) => good && bytes_eqb secret (t_secret st)
+                                   | None => false
+                                   end in
+      match check13 hmac_sha256 (ks_lookup ks) (cert_lookup certs) binder_ok keys s h mode ids (length binders) with
+      | NoPSK => option_eqb (option_eqb N.eqb) (Some None) out
+      | UsePSK i _ => option_eqb (option_eqb N.eqb) (Some (Some (N.of_nat i))) out
+      | Abort => option_eqb (option_eqb N.eqb) None out
+      end
   | CKeys user rand ops out =>
       list_eqb (list_eqb tkey_eqb)
                (run_kops {| k_legacy := match user with Some b => LegacyUser b | None => LegacyZero end;
